@@ -116,7 +116,8 @@ def _partition(draw, route, lab_idx, all_idx, max_files=4):
             'rows_at_a_time': draw(st.integers(1, n_rows + 2)),
             'n_processors': draw(st.integers(1, 4)),
             'tmp_dir': draw(st.integers(0, 3)) > 0,
-            'copy_data_over': route == 'tree' and draw(st.integers(0, 3)) == 3}
+            'copy_data_over': route == 'tree' and draw(st.integers(0, 3)) == 3,
+            'same_names': len(files) > 1 and draw(st.booleans())}
 
 
 @st.composite
